@@ -16,7 +16,7 @@ def _all(f):
     return True
 
 
-prop("C03", ["take_range", "sort_take", "limit_clause", "flatten_sort", "sort_infer", "lower_transform", "split_order", "sort_names", "dialect_flags"],
+prop("C03", ["take_range", "sort_take", "limit_clause", "flatten_sort", "sort_infer", "lower_transform", "split_order", "sort_names", "dialect_flags", "group_take"],
      select={"dialect_flags": lambda n: n.rsplit(".", 1)[1] in ("use_fetch", "limit_for_bare_offset"), "split_order": lambda n: n.split(".", 1)[1] in ("RO1", "RO2", "RO3", "reorder_should_swap.safety", "IC1", "IC2", "IC3") or n.split(".", 1)[1].startswith("SO1.Take.")},
      not_covered="alias_last_sorting and CidRedirector::redirect_sorts (how the sorting is re-expressed across cid redirects: folds over PQ with HashMap state); the driver loops of the sort inference (its step and the CTE record are under contract), "
                  "ensure_names for sort columns; the recursion of Flattener::fold_expr itself (the arms are proved against its contract)")
@@ -56,7 +56,7 @@ for _pid, _why in [
 ]:
     na(_pid, _why)
 
-prop("C02", ["sql_prec", "static_eval", "operator_tpl", "literals", "lex_numbers", "cid_inline", "lex_end_expr"], select={"literals": lambda n: n.split(".", 1)[1] in ("TL1i", "TL1f", "NE1", "number_expr.safety")},
+prop("C02", ["sql_prec", "static_eval", "operator_tpl", "literals", "lex_numbers", "cid_inline", "lex_end_expr", "prql_prec"], select={"prql_prec": lambda n: n.split(".", 1)[1].startswith(("PP1.", "FP1.")) or n.split(".", 1)[1] in ("NPF", "needs_parenthesis.safety"), "literals": lambda n: n.split(".", 1)[1] in ("TL1i", "TL1f", "NE1", "number_expr.safety")},
      not_covered="evaluation inside the database; dialect templates beyond the strengths they declare; sites that build SQL operands "
                  "without translate_operand (process_concat, process_array_in, try_into_between) are not yet under contract")
 claim("C02",
@@ -74,7 +74,7 @@ claim("C02",
       "Context state not modelled); sqlparser enums are mechanically generated skeletons; sqlparser's Display is trusted to print trees as written.")
 
 prop("C01", ["split_order", "take_range", "operator_tpl", "vec_utils", "group_take", "flatten_sort", "sort_take", "sort_infer", "setop_pairs", "lower_transform", "positional_map", "sql_prec", "literal_rows"],
-     select={"sql_prec": lambda n: n.split(".", 1)[1] in ("NP5eq", "NP5ne", "process_null.safety")},
+     select={"sql_prec": lambda n: n.split(".", 1)[1] in ("NP5eq", "NP5ne", "process_null.safety", "NP6a", "NP6b", "try_into_between.safety", "try_into_between.precondition")},
      not_covered="anchor_split cid redirection, preprocess (distinct/union recognition), lowering, flattening, the other pluck call sites of translate_select_pipeline (select / sort / take / join): hash-map threaded folds over three "
                  "IRs; a violation there is invisible to these contracts")
 claim("C01",
@@ -97,11 +97,11 @@ claim("C01",
 
 def _c04_split(name):
     lab = name.split(".", 1)[1]
-    return (lab in ("IC1", "IC2", "IC3", "CM1", "CM2", "SO1c", "RO1", "RO2", "RO3", "CX1", "GR1", "GR2") or lab.startswith("SO1.Compute.")
+    return (lab in ("IC1", "IC2", "IC3", "CM1", "CM2", "CM3", "SA1", "SA2", "RA1", "SO1c", "RO1", "RO2", "RO3", "CX1", "GR1", "GR2") or lab.startswith("SO1.Compute.")
             or lab in ("SO1.Take.Compute", "SO1.Distinct.Compute", "SO1.DistinctOn.Compute", "SO1.Aggregate.Compute") or lab.endswith(".safety"))
 
 
-prop("C04", ["window_frame", "split_order", "lower_cols", "group_take", "lower_transform", "dialect_flags"], select={"dialect_flags": lambda n: n.rsplit(".", 1)[1] == "supports_distinct_on", "split_order": _c04_split, "lower_cols": lambda n: n.split(".", 1)[1] in ("DC5", "DC6") or n.endswith(".safety")},
+prop("C04", ["window_frame", "split_order", "lower_cols", "group_take", "lower_transform", "dialect_flags", "flatten_sort"], select={"flatten_sort": lambda n: n.split(".", 1)[1] in ("FT1", "FT2", "FT3", "FO1", "FO2", "flatten_call_slice.safety"), "dialect_flags": lambda n: n.rsplit(".", 1)[1] == "supports_distinct_on", "split_order": _c04_split, "lower_cols": lambda n: n.split(".", 1)[1] in ("DC5", "DC6") or n.endswith(".safety")},
      not_covered="that the Flattener's log entries are the expressions whose columns end up in the window (the recursion of fold_expr is external; its Sort / Group / Window arms and the call it builds are under contract in flatten_sort / window_frame), row-count preservation, the window of the ROW_NUMBER() column")
 claim("C04",
       "PARTIAL. Proved on the real code, for all inputs: the window transform maps expanding / rolling:n / rows / range to exactly the documented "
